@@ -73,6 +73,7 @@ fn main() {
         "mailbox" => mailbox::run(&args),
         "shutdown" => shutdown::run(&args),
         "registry" => registry::run(&args),
+        "name_reuse" => registry::name_reuse(&args),
         "life" => life::run(&args),
         "kill_window" => life::kill_window(&args),
         "tl_queued_cancel" => life::tl_queued_cancel(&args),
